@@ -506,6 +506,37 @@ def _has_output(ops):
     return False
 
 
+def _export_specs(seed, plan):
+    specs = []
+    for i in range(len(c03.ATTRS)):
+        for val in (True, False):
+            attrs = [None] * len(c03.ATTRS)
+            attrs[i] = val
+            specs.append({"attrs": tuple(attrs), "fg": None, "bg": None, "link": None})
+    specs.extend(c03.style_pool(seed, plan["blocks"], 20)[:120])
+    return specs
+
+
+def _export_vs_spec(spec):
+    """-> None or (what, expected, observed)"""
+    import io
+
+    from rich.console import Console
+    from rich.text import Text
+
+    console = Console(file=io.StringIO(), record=True, color_system="truecolor", force_terminal=True, width=80,
+                      legacy_windows=False, _environ={})
+    console.print(Text.assemble("left ", ("WORD", c03.build_style(spec)), " right"))
+    styled = console.export_text(clear=False, styles=True)
+    config = {"color_system": "truecolor", "no_color": False, "force_terminal": True, "legacy_windows": False}
+    segs = [["left ", None, False], ["WORD", spec, False], [" right\n", None, False]]
+    _ev, fails = c03.check_stream(styled, segs, config)
+    for clause, what, exp, obs in fails:
+        if clause in ("c03.chars", "c03.attrs", "c03.fg", "c03.bg", "c03.link"):
+            return ("%s [%s]" % (what, clause), exp, obs)
+    return None
+
+
 def replay(inp):
     return evaluate(inp["ops"], inp["config"])
 
@@ -574,6 +605,19 @@ def run(tier: str = "quick", seed: int = 0) -> dict:
             if any(f["check"] == clause and f["input_key"] == record["input_key"] for f in failures):
                 continue
             failures.append(record)
+
+    # "the styled export decodes ... with the same styles": against the styles that were printed, not only against the
+    # file (which is produced by the same code) - one styled word per style: every attribute alone and the C03 pool
+    n_spec = 0
+    for spec in _export_specs(seed, plan):
+        n_spec += 1
+        bad = _export_vs_spec(spec)
+        if bad is not None and sum(1 for f in failures if f["input_key"].startswith("spec:")) < MAX_FAIL:
+            failures.append({"check": "c15.export_styled", "what": "export_text(styles=True) vs the printed style: " + bad[0],
+                             "input_key": "spec:" + json.dumps(c03._jsonable(spec), sort_keys=True)[:160],
+                             "input": {"printed_style": c03._jsonable(spec), "text": "left WORD right"},
+                             "expected": c03._jsonable(bad[1]), "observed": c03._jsonable(bad[2])})
+    clauses["c15.export_styled"] = clauses.get("c15.export_styled", 0) + n_spec
 
     samples = [{"ops": cases[i][0], "config": cases[i][1]} for i in (0, len(cases) // 2, len(cases) - 1)]
     return {
